@@ -54,7 +54,7 @@ _stub("C09", "Decides structural clauses of C09 on a static model of the ninja g
              "path-valued variable is a declared input; no rule sets restat/generator; the glyphmap edge lists the per-source "
              "intermediates of each format family; resolved configs and build.ninja are rewritten unconditionally before ninja runs; "
              "ninja runs with check=True, pngquant returns its child's status, no except handler swallows an error outside a reviewed "
-             "table, no step exits 0 explicitly; every font-writing main writes the font as its last action; no control flow depends on what files an earlier invocation left behind (exists/stat/mtime/size probes). Does NOT decide "
+             "table, no step exits 0 explicitly; every font-writing main writes the font as its last action; no control flow depends on what files an earlier invocation left behind (exists/stat/mtime/size probes), no step back-dates its output (copy2/copystat/utime), ninja's bookkeeping tools are not run. Does NOT decide "
              "convergence over histories, ninja's own dirtiness logic, or behaviour at kill points.",
       "convergence over edit/crash histories; ninja log/mtime semantics; partial files left by killed steps")
 
@@ -87,8 +87,8 @@ _stub("C18", "Decides structural clauses of C18: each master's UFO edge is built
 _stub("C08", "Decides structural clauses of C08 with an order-taint analysis over every module on the font path: set-like values and "
              "directory listings may be consumed only by order-insensitive consumers (sorted, set algebra, membership, len/min/max/"
              "any/all, util.only) or by loops whose bodies commute; every other consumption is a finding unless it is in a reviewed "
-             "exception table keyed by function and construct. Also: no clock/random/pid/id()/hash()/environment reads (with a "
-             "positive fixture), source paths and build locations flow only to open/parse, sort keys and messages, the first-seen "
+             "exception table keyed by function and construct. Also: no clock/random/pid/id()/hash()/environment reads and no time-stamped containers (gzip without mtime) (with a "
+             "positive fixture), no module-level memo tables keyed on part of the input, source paths and build locations flow only to open/parse, sort keys and messages, the first-seen "
              "disambiguation of intermediate names is fed from the sorted source list, workers keep the driver's source order (no re-sorting of build-dir-relative spellings), and the hash-ordered parts file is never read "
              "by the font writer. Does NOT decide ninja's scheduler, fontTools' SOURCE_DATE_EPOCH handling or external tools.",
       "ninja scheduling; fontTools timestamps; picosvg/resvg/pngquant determinism; sort ties under non-injective keys")
